@@ -1,0 +1,179 @@
+//! Verification hooks (feature `verif-hooks` only): thin wrappers that
+//! expose crate-private parsers and helpers to an external harness.
+//! Nothing here changes the behaviour of the crate.
+use crate::parseresult::{show_errors, PResult};
+use crate::templateexpression::{TemplateArgument, TemplateExpression};
+use nom_language::error::{VerboseError, VerboseErrorKind};
+use std::fmt::Write as _;
+
+fn hex(data: &[u8]) -> String {
+    if data.is_empty() {
+        return "-".into();
+    }
+    let mut s = String::with_capacity(data.len() * 2);
+    for b in data {
+        let _ = write!(s, "{b:02x}");
+    }
+    s
+}
+
+/// Compile a template: `Ok(generated rust)` or `Err(diagnostics as printed)`.
+pub fn compile(name: &str, buf: &[u8]) -> Result<String, String> {
+    match crate::template::template(buf) {
+        Ok((_, t)) => {
+            let mut data = String::new();
+            t.write_rust(&mut data, name).map_err(|e| e.to_string())?;
+            Ok(data)
+        }
+        Err(error) => {
+            let mut out = Vec::new();
+            show_errors(&mut out, buf, &error, "cargo:warning=");
+            Err(String::from_utf8_lossy(&out).into_owned())
+        }
+    }
+}
+
+fn err_list(len: usize, e: &nom::Err<VerboseError<&[u8]>>) -> String {
+    match e {
+        nom::Err::Error(VerboseError { errors }) => {
+            let mut v = Vec::new();
+            for (rest, kind) in errors {
+                let msg = match kind {
+                    VerboseErrorKind::Context(m) => (*m).to_string(),
+                    VerboseErrorKind::Char(c) => format!("Expected {c:?}"),
+                    VerboseErrorKind::Nom(_) => continue,
+                };
+                v.push(format!("{}:{}", len - rest.len(), hex(msg.as_bytes())));
+            }
+            format!("err {}", v.join(","))
+        }
+        nom::Err::Failure(_) => "failure".into(),
+        nom::Err::Incomplete(_) => "incomplete".into(),
+    }
+}
+
+fn dump_list(l: &[TemplateExpression]) -> String {
+    let v: Vec<String> = l.iter().map(dump_expr).collect();
+    format!("[{}]", v.join(";"))
+}
+
+fn dump_expr(e: &TemplateExpression) -> String {
+    match e {
+        TemplateExpression::Comment => "C".into(),
+        TemplateExpression::Text { text } => format!("X{}", hex(text.as_bytes())),
+        TemplateExpression::Expression { expr } => {
+            format!("E{}", hex(expr.as_bytes()))
+        }
+        TemplateExpression::ForLoop { name, expr, body } => format!(
+            "F({},{},{})",
+            hex(name.as_bytes()),
+            hex(expr.as_bytes()),
+            dump_list(body)
+        ),
+        TemplateExpression::IfBlock {
+            expr,
+            body,
+            else_body,
+        } => format!(
+            "I({},{},{})",
+            hex(expr.as_bytes()),
+            dump_list(body),
+            else_body.as_deref().map_or("-".to_string(), dump_list)
+        ),
+        TemplateExpression::MatchBlock { expr, arms } => {
+            let v: Vec<String> = arms
+                .iter()
+                .map(|(p, b)| format!("({},{})", hex(p.as_bytes()), dump_list(b)))
+                .collect();
+            format!("M({},[{}])", hex(expr.as_bytes()), v.join(";"))
+        }
+        TemplateExpression::CallTemplate { name, args } => {
+            let v: Vec<String> = args
+                .iter()
+                .map(|a| match a {
+                    TemplateArgument::Rust(s) => format!("R{}", hex(s.as_bytes())),
+                    TemplateArgument::Body(b) => format!("B{}", dump_list(b)),
+                })
+                .collect();
+            format!("K({},[{}])", hex(name.as_bytes()), v.join(";"))
+        }
+    }
+}
+
+/// Parse a template and dump the syntax tree in a canonical form.
+pub fn ast_dump(buf: &[u8]) -> String {
+    match crate::template::template(buf) {
+        Ok((_, t)) => {
+            let (preamble, type_args, args, body) = t.verif_parts();
+            let p: Vec<String> = preamble.iter().map(|s| hex(s.as_bytes())).collect();
+            let a: Vec<String> = args.iter().map(|s| hex(s.as_bytes())).collect();
+            format!(
+                "ok T([{}],{},[{}],{})",
+                p.join(";"),
+                hex(type_args.as_bytes()),
+                a.join(";"),
+                dump_list(body)
+            )
+        }
+        Err(e) => err_list(buf.len(), &e),
+    }
+}
+
+fn res_str<T: AsRef<str>>(len: usize, r: PResult<T>) -> String {
+    match r {
+        Ok((rest, v)) => {
+            format!("ok {} {}", len - rest.len(), hex(v.as_ref().as_bytes()))
+        }
+        Err(e) => err_list(len, &e),
+    }
+}
+
+fn res_unit(len: usize, r: PResult<()>) -> String {
+    match r {
+        Ok((rest, ())) => format!("ok {} -", len - rest.len()),
+        Err(e) => err_list(len, &e),
+    }
+}
+
+/// Run one named sub-parser; answer is consumed length and value, or the error list.
+pub fn parse_with(which: &str, buf: &[u8]) -> String {
+    use crate::expression as e;
+    let n = buf.len();
+    match which {
+        "expression" => res_str(n, e::expression(buf)),
+        "rust_name" => res_str(n, e::rust_name(buf)),
+        "quoted_string" => res_str(n, e::quoted_string(buf)),
+        "expr_in_braces" => res_str(n, e::expr_in_braces(buf)),
+        "expr_inside_parens" => res_str(n, e::expr_inside_parens(buf)),
+        "comma_expressions" => res_str(n, e::comma_expressions(buf)),
+        "rust_comment" => match e::rust_comment(buf) {
+            Ok((rest, v)) => format!("ok {} {}", n - rest.len(), hex(v)),
+            Err(e) => err_list(n, &e),
+        },
+        "spacelike" => res_unit(n, crate::spacelike::spacelike(buf)),
+        "comment" => res_unit(n, crate::spacelike::comment(buf)),
+        _ => crate::template::verif_parse_with(which, buf)
+            .or_else(|| crate::templateexpression::verif_parse_with(which, buf))
+            .unwrap_or_else(|| "bad-parser".into()),
+    }
+}
+
+pub(crate) fn unit_result(len: usize, r: PResult<()>) -> String {
+    res_unit(len, r)
+}
+pub(crate) fn str_result<T: AsRef<str>>(len: usize, r: PResult<T>) -> String {
+    res_str(len, r)
+}
+
+/// `checksum_slug` of the statics module.
+pub fn checksum_slug(data: &[u8]) -> String {
+    crate::staticfiles::verif_checksum_slug(data)
+}
+/// `name_and_ext` of the statics module.
+pub fn name_and_ext(path: &std::path::Path) -> Option<(String, String)> {
+    crate::staticfiles::verif_name_and_ext(path)
+}
+/// `mime_arg` of the statics module (depends on the MIME feature).
+pub fn mime_arg(suffix: &str) -> String {
+    crate::staticfiles::verif_mime_arg(suffix)
+}
